@@ -19,7 +19,7 @@ SParam expectedParam(const ParamSpec &sp) {
     return p;
 }
 struct L09 : Listener {
-    CaseResult &r; std::vector<SGroup> pre; size_t replaced = 0, multi = 0, setRefused = 0, created = 0, locks = 0, appended = 0, selfHanded = 0;
+    CaseResult &r; std::vector<SGroup> pre; size_t replaced = 0, multi = 0, setRefused = 0, created = 0, locks = 0, appended = 0, selfHanded = 0, dimQueries = 0;
     explicit L09(CaseResult &rr) : r(rr) {}
     void before(Interp &in, const Op &, size_t) override { pre = takeSnap(in.o()).groups; }
     void fail(size_t i, const Op &op, const std::string &m) { r.fail("op " + std::to_string(i) + " (" + op.code + "): " + m); stop = true; }
@@ -41,6 +41,16 @@ struct L09 : Listener {
             ++replaced;
             std::string d = firstDiff(groupsText(want), groupsText(post));
             if (!d.empty()) fail(i, op, "a parameter re-set on a copy with the sign of its zeros flipped does not hold the new values: " + d);
+            return;
+        }
+        if (k == "dimq") {
+            // the acceptance rule itself, asked through the public helper: count == product of the dimensions (no dimension: product 1);
+            // no data only with no dimension or a zero-sized shape
+            long long n = op.arg(0) < 0 ? -op.arg(0) : op.arg(0); long long nd = (op.arg(1) < 0 ? -op.arg(1) : op.arg(1)) % 8;
+            unsigned long long prod = 1; for (long long j = 0; j < nd; ++j) prod *= static_cast<unsigned long long>((op.arg(2 + static_cast<size_t>(j)) < 0 ? -op.arg(2 + static_cast<size_t>(j)) : op.arg(2 + static_cast<size_t>(j))) % 256);
+            const bool want = n == 0 ? (nd == 0 || prod == 0) : static_cast<unsigned long long>(n) == prod;
+            ++dimQueries;
+            if (o.threw || o.note != std::string("dimq=") + (want ? "1" : "0")) fail(i, op, "isDimensionConsistent(" + std::to_string(n) + ", " + std::to_string(nd) + " dimensions of product " + std::to_string(prod) + ") answered " + (o.threw ? o.cls : o.note) + ", the rule says " + (want ? "1" : "0"));
             return;
         }
         if (k == "selfparam") {
@@ -123,7 +133,7 @@ CaseResult runC09(const Case &c, RunCtx &ctx) {
     in.run(c);
     r.nontrivial = L.replaced || L.multi || L.setRefused;
     if (L.replaced) r.tags.insert("replace-in-place"); if (L.appended) r.tags.insert("append"); if (L.created) r.tags.insert("group-created");
-    if (L.selfHanded) r.tags.insert("own-parameter-handed-back"); if (L.multi) r.tags.insert("dims>=3"); if (L.setRefused) r.tags.insert("set-refused"); if (L.locks) r.tags.insert("lock-toggle");
+    if (L.selfHanded) r.tags.insert("own-parameter-handed-back"); if (L.dimQueries) r.tags.insert("dimension-rule-asked-directly"); if (L.multi) r.tags.insert("dims>=3"); if (L.setRefused) r.tags.insert("set-refused"); if (L.locks) r.tags.insert("lock-toggle");
     r.counters["replaced"] = static_cast<long long>(L.replaced); r.counters["appended"] = static_cast<long long>(L.appended);
     r.counters["set_refused"] = static_cast<long long>(L.setRefused); r.counters["groups_created"] = static_cast<long long>(L.created);
     return r;
